@@ -47,6 +47,7 @@ func effective(con *Contract, b *Behaviour) *Behaviour {
 	e.Ensures = append(append([]*Clause{}, con.Common.Ensures...), b.Ensures...)
 	e.Assigns = append(append([]*Clause{}, con.Common.Assigns...), b.Assigns...)
 	e.HasAssigns = con.Common.HasAssigns || b.HasAssigns
+	e.AssignsAny = con.Common.AssignsAny || b.AssignsAny
 	e.Panics = append(append([]*Clause{}, con.Common.Panics...), b.Panics...)
 	e.Insts = append(append([]*Clause{}, con.Common.Insts...), b.Insts...)
 	for k, v := range con.Common.Loops {
@@ -181,6 +182,17 @@ func (e *Engine) VerifyUnit(u *Unit) (res *UnitResult) {
 		}
 		c.AddObl(&Obligation{Name: u.Name + "/cover:return", Func: fn.String(), Beh: fx.behName, Kind: "cover", Guard: Or(gs...), Goal: False, Cover: true, Pos: fx.pos(fn.Pos())})
 	}
+	// frame: a call whose effects are unknown (no contract, not inlined) may change any memory; a unit that
+	// makes one cannot promise a frame, its contract has to say `assigns anything` (callers then forget the heap)
+	if len(fx.opaqueUsed) > 0 && !fx.beh.AssignsAny {
+		var names []string
+		for n := range fx.opaqueUsed {
+			names = append(names, n)
+		}
+		sort.Strings(names)
+		c.AddObl(&Obligation{Name: u.Name + "/assigns:unknown-callee-effects", Func: fn.String(), Beh: fx.behName, Kind: "assigns", Guard: True, Goal: False, Pos: fx.pos(fn.Pos()),
+			Note: "calls with unknown effects: " + strings.Join(names, ", ") + " -- the contract must say `assigns anything`"})
+	}
 	fx.addAxioms(u.Con.Pkg)
 	res.Obls = c.obls
 	for ax := range fx.lemmasUsed {
@@ -200,8 +212,29 @@ func (fx *FnExec) addAxioms(pkg string) {
 	for changed := true; changed; {
 		changed = false
 		for _, ax := range fx.e.axioms {
-			if used[ax] || (ax.Pkg != "" && ax.Pkg != pkg) {
+			if used[ax] {
 				continue
+			}
+			if ax.Pkg != "" && ax.Pkg != pkg {
+				// an axiom of another package's contract file: usable when this unit refers to that package's spec
+				// functions (pkg.f in a contract) and none of the names it mentions is also defined by this package
+				if ax.Manual || ax.Lemma {
+					continue
+				}
+				names := map[string]bool{}
+				collectCalls(ax.Expr, names)
+				ambiguous, mentionsOwn := false, false
+				for n := range names {
+					if _, own := fx.e.specs[pkg+"\x00"+n]; own {
+						ambiguous = true
+					}
+					if sf, ok := fx.e.specs[ax.Pkg+"\x00"+n]; ok && sf != nil && fx.c.HasDecl("spec_"+n) {
+						mentionsOwn = true
+					}
+				}
+				if ambiguous || !mentionsOwn {
+					continue
+				}
 			}
 			if ax.Manual {
 				ok := false
